@@ -273,3 +273,24 @@ def c_aspect_binding(ctx, it, cfg):
                 ctx.prove('phase%d/interpolates-its-own-table' % p, r == ('interp', R, p))
         else:
             ctx.prove('phase%d/constant-aspect-ratio-kept' % p, tab[p] == ('constant-table', p) and p not in funcs)
+
+
+@REG.contract('element-order/composition-profile-rows', [DP + ':CompositionProfile.buildProfile', DP + ':CompositionProfile.addCompositionBuildStep',
+              DP + ':CompositionProfile.addLinearCompositionStep', DP + ':CompositionProfile._setLinearComposition'],
+              configs=[dict(name='%s;defined-%s' % (','.join(e), ','.join(d)), els=e, defs=d) for e in (['AL', 'CR'], ['CR', 'AL']) for d in (['AL', 'CR'], ['CR', 'AL'])])
+def c_profile_rows(ctx, it, cfg):
+    """row i of the initial composition profile is the profile the user defined for the element NAMED elements[i], in whatever order the steps were defined"""
+    CP = it.get(DP, 'CompositionProfile')
+    cp = CP()
+    ends = {e: (real(ctx, 'left_' + e), real(ctx, 'right_' + e)) for e in cfg['els']}
+    for e in cfg['defs']:
+        cp.addLinearCompositionStep(e, ends[e][0], ends[e][1])
+    N = integer(ctx, 'N', lambda v: v >= 2)
+    z0, dz = real(ctx, 'z0'), real(ctx, 'dz', lambda v: v > 0)
+    z = Arr((N,), lambda i: z0 + to_real(i) * dz, 'real')
+    x = NP.zeros((len(cfg['els']), N))
+    cp.buildProfile(cfg['els'], x, z)
+    for i, e in enumerate(cfg['els']):
+        ctx.prove('row%d-starts-at-the-left-value-of-%s' % (i, e), eq(x.get(i, 0), ends[e][0]))
+        ctx.prove('row%d-ends-at-the-right-value-of-%s' % (i, e), eq(x.get(i, N - 1), ends[e][1]), inst=[N - 1])
+    ctx.prove('canary/rows-swapped', eq(x.get(0, 0), ends[cfg['els'][1]][0]), expect='refuted')
